@@ -101,13 +101,18 @@ PROPS["C07"] = {
             "delivered, every message the model says is handled before the stop was handled earlier; which messages behind a pill are handled equals "
             "the model (Poison drains its batch, Stop drops); no message of a foreign (engine-private) type reaches Receive or the middleware.  "
             "Non-trivial = >=2 pills, or a pill with messages on both sides in one window, or a pill meeting a crash.  "
-            "While finding F7 is open, calls whose pill is not the stopping one are removed by construction and counted.",
-    "technique": "model-based property testing (rapid) with context watchers and dead-letter probes; open finding F7 excluded by construction",
-    "level_text": "Generated-history search against an exact model of drain/stop semantics; 'every caller is signalled' is checked for every pill the model says is effective or dead-on-arrival.",
+            "A request whose pill is not the one that stops the actor (second and later requests, pills pending at a max-restarts death) must be done after the final Stopped as well; "
+            "its drain clause is not judged (what it queued behind is decided by the request that did stop the actor).  "
+            "Concurrent leg: 2..6 callers (Stop/Poison/PoisonCtx) released by a barrier against one actor, next to senders, a backlog behind a gate, a crash with budget 0 and a Stopped "
+            "handler of generated duration; for every context: done within 5 s of the actor being observed stopped and unregistered, at Done the Stopped handler has finished and the id is "
+            "unregistered, the probe sent afterwards dead-letters exactly once; Stopped handled exactly once; non-trivial = >=2 callers plus senders, backlog, crash or a slow Stopped handler.",
+    "technique": "model-based property testing (rapid) with context watchers and dead-letter probes; plus generated concurrent stop-request races on real goroutines",
+    "level_text": "Generated-history search against an exact model of drain/stop semantics; 'every caller is signalled' is checked for every request, whichever of them stops the actor.",
     "level_note": "trusts internal/life/sim.go; 'eventually done' is decided only once the actor is known to be stopped (5 s grace after ActorStoppedEvent was observed)",
-    "assumptions": LIFE_ASSUME + ["open finding F7 (second/later pills, pills pending at a max-restarts death) is excluded from generation and probed separately"],
+    "assumptions": LIFE_ASSUME + ["concurrent leg: the interleaving of the callers with the clean-up is sampled by the Go runtime (generated spin counts only bias it)"],
     "legs": [plain("known", "c07", "TestKnownF7"),
-             rapid("life", "c07", "TestStopPoison", 3000, 50000, shards=(2, 12))],
+             rapid("life", "c07", "TestStopPoison", 3000, 50000, shards=(2, 12)),
+             rapid("conc", "c07", "TestConcurrentStops", 1500, 20000, shards=(2, 8))],
 }
 
 PROPS["C13"] = {
@@ -274,15 +279,17 @@ PROPS["C11"] = {
 PROPS["C08"] = {
     "id": "C08", "level": "exploration",
     "rule": "generated trees of 1..10 actors (depth <= 3, fan-out <= 3, children spawned by their parent's Started handler), nodes that are blocked in Receive with 0..5 queued messages "
-            "when the shutdown starts, leaves that die inside their own Started handler (MaxRestarts 0), 0..2 subtrees stopped/poisoned by a third party beforehand (awaited), then one node is stopped, poisoned or crashed to death (MaxRestarts 0).  "
+            "when the shutdown starts, leaves that die inside their own Started handler (MaxRestarts 0), 0..2 subtrees stopped/poisoned by a third party beforehand (awaited), then one node is stopped, poisoned or crashed to death (MaxRestarts 0) "
+            "while 0..3 third parties stop/poison nodes inside that subtree (the target included) just before, just after, or from goroutines released together with the shutdown call.  "
             "Every actor stamps Stopped with a global sequence number and looks its descendants up in the registry from inside its Stopped handler: every descendant must have a smaller "
             "stamp and be unregistered, Stopped is handled exactly once per node, the stop context completes after all of it, nodes outside the subtree are untouched, Children() of every "
             "live node equals the model's live children at every quiescent point, Parent() names the spawner.  Non-trivial = the stopped subtree has depth >= 2 and a blocked descendant, "
-            "a subtree that stopped on its own first, a child that died in its own Started, or a death by max-restarts.",
-    "technique": "property-based testing (rapid) of generated supervision trees on the real engine; global stop stamps + in-handler registry probes",
+            "a subtree that stopped on its own first, a child that died in its own Started, a death by max-restarts, or a third-party stop overlapping the shutdown.  "
+            "Every overlapping request's context must be done once the subtree is down, and at that moment its target has handled Stopped and is unregistered.",
+    "technique": "property-based testing (rapid) of generated supervision trees and overlapping stop requests on the real engine; global stop stamps + in-handler registry probes",
     "level_text": "Generated-configuration search with an ordering invariant over the Stopped stamps of the whole tree.",
-    "level_note": "third-party stops are awaited before the parent shuts down: the concurrent case is open finding F7 (known_findings.json) and is kept out by construction",
-    "assumptions": ENG_ASSUME + ["a third party never stops a child concurrently with its parent's shutdown (open finding F7, printed as KNOWN-FINDING)"],
+    "level_note": "the interleaving of overlapping stop requests with the clean-up of the tree is sampled by the Go runtime (real goroutines), not owned; findings F7, F17, F18 (fixed) were found and are guarded by this leg",
+    "assumptions": ENG_ASSUME + ["no handler panics inside Stopped"],
     "legs": [plain("known", "tree", "TestKnownF7"), rapid("tree", "tree", "TestTree", 2000, 40000, shards=(2, 12))],
 }
 
